@@ -784,6 +784,12 @@ func (x g) fact(p pred) string {
 		if x.bad(3) {
 			return x.term(2, nil)
 		}
+		if x.bad(3) {
+			// a function application in a fact, at an arity of its own choosing (argument counts are not checked
+			// in heads): most interesting with no argument at all
+			f := builtinFuns[x.n(0, len(builtinFuns)-1)]
+			return f.name + "(" + x.list(0, 0, x.n(0, 2), func(int) string { return x.constant(0) }) + ")"
+		}
 		if col >= len(p.cols) { // arity mismatch
 			return x.valueOf(nil)
 		}
@@ -1031,6 +1037,10 @@ func (x g) preds() []pred {
 	}
 	if x.chance(6) {
 		ps[x.n(0, len(ps)-1)].name = x.pick([]string{"foo.bar", "a:b", "p_1", "m"})
+		if x.bad(30) {
+			// a user predicate named like a built-in one (any arity)
+			ps[x.n(0, len(ps)-1)].name = x.pick([]string{":lt", ":list:member", ":match_prefix", ":match_nil", ":string:contains", ":foo"})
+		}
 	}
 	return ps
 }
